@@ -394,8 +394,10 @@ YR_API int yr_rules_load_stream(YR_STREAM* stream, YR_RULES** rules)
   // Load the arena's data the stream. We are the owners of the arena.
   FAIL_ON_ERROR(yr_arena_load_stream(stream, &arena));
 
-  // A compiled rules file has exactly one buffer per section.
-  if (arena->num_buffers != YR_NUM_SECTIONS)
+  // A compiled rules file has exactly one buffer per section, and the last
+  // one holds the summary.
+  if (arena->num_buffers != YR_NUM_SECTIONS ||
+      arena->buffers[YR_SUMMARY_SECTION].used != sizeof(YR_SUMMARY))
   {
     yr_arena_release(arena);
     return ERROR_CORRUPT_FILE;
